@@ -24,12 +24,15 @@ def replay_open(ctx, prop):
         elif vm:
             if "vm_out" in exp:
                 still = vm.get("out") == exp["vm_out"]
+            elif "tree_out" in exp:
+                still = (r.get("TREE") or {}).get("out") == exp["tree_out"]
             elif "vm_residue" in exp:
                 k, v = exp["vm_residue"].split("=")
                 still = vm.get(k) == v
             elif exp.get("vm") == "CRASH":
                 still = False
-        ctx.known(e["id"], e["what"])
-        if still is False:
+        if still is not False:
+            ctx.known(e["id"], e["what"])
+        else:
             ctx.note(f"witness of open finding {e['id']} no longer fails as recorded (vm: {vm and vm.get('raw', '')[:120]})")
     return seen
